@@ -83,6 +83,9 @@ fn main() {
                 // damage_manifest <bytes before the end> <xor mask>
                 "damage_manifest" => dbops.push(api::DbOp::DamageManifest(t[2].parse().unwrap(), t[3].parse().unwrap())),
                 // damage_table <num> <den> <xor mask>: the byte at len * num / den of the newest table file
+                "get_many" => dbops.push(api::DbOp::GetMany(unhex(t[2]), t[3].parse().unwrap())),
+                "sleep" => dbops.push(api::DbOp::Sleep(t[2].parse().unwrap())),
+                "dircheck" => dbops.push(api::DbOp::DirCheck),
                 "damage_table" => dbops.push(api::DbOp::DamageTable(t[2].parse().unwrap(), t[3].parse().unwrap(), t[4].parse().unwrap())),
                 _ => panic!("bad db op"),
             },
@@ -224,6 +227,7 @@ fn main() {
                     api::DbOp::PinIterator(_) => frozen_pins.push((i, model.clone())),
                     api::DbOp::Reopen(_) | api::DbOp::ReopenSmallFiles(_) | api::DbOp::DamageManifest(_, _) => { frozen.clear(); frozen_pins.clear(); }
                     api::DbOp::ReleaseSnapshot => { if !frozen.is_empty() { frozen.remove(0); } }
+                    api::DbOp::DirCheck => { frozen.clear(); frozen_pins.clear(); }
                     _ => {}
                 }
             }
@@ -238,6 +242,8 @@ fn main() {
                 return;
             }
             let mut bad = vec![];
+            // C11: dead table files that are still on disk although nothing pins them
+            for m in api::dircheck_findings() { bad.push(format!("dircheck {}", m)); }
             // iterators created in the middle of the history and read at the end: the state at creation
             for pscan in &pins {
                 let m = &frozen_pins.iter().find(|(j, _)| *j == pscan.taken_at).unwrap().1;
